@@ -146,6 +146,7 @@ class Run:
         self.sim = simgrpc.Sim(None)
         self.sim.numeric_enums = bool((world.spec.get("options") or {}).get("rest-numeric-enums"))
         self.sim.json_pool = world.codec.pool
+        self.second_pass = set()        # ops whose pager is being walked a second time (the page server lets pages be fetched again)
         self.sim.unknown_reply_field = bool(scenario.get("unknown_reply_field"))
         self.sim.http_error_body = scenario.get("http_error_body")      # None (google.rpc JSON) | "html" | "empty"
         self.server = server_factory(self)
@@ -228,7 +229,7 @@ class Run:
         if t != "default":
             kwargs["timeout"] = t
         if call.get("metadata"):
-            kwargs["metadata"] = [tuple(kv) for kv in call["metadata"]]
+            kwargs["metadata"] = [(k, bytes.fromhex(v["__b"]) if isinstance(v, dict) else v) for k, v in call["metadata"]]
             if call.get("metadata_form") == "tuple":
                 kwargs["metadata"] = tuple(kwargs["metadata"])
             elif call.get("metadata_shared"):
@@ -611,10 +612,21 @@ def _sync_paged(run, client, op):
                 if op.get("stop_after") == n:
                     break
         _read_attrs(run, op, pager)
+        if op.get("reiterate"):
+            # caller behaviour: the pager is treated as an iterable and walked a SECOND time (len(list(pager)), then a loop)
+            run.second_pass.add(op["id"])
+            run.sim.ev("second_pass", op=op["id"])
+            try:
+                for item in pager:
+                    run.sim.ev("item2", op=op["id"], value=norm_item(item))
+                run.sim.ev("second_pass_end", op=op["id"], outcome="return")
+            except Exception as e2:  # noqa
+                run.sim.ev("second_pass_end", op=op["id"], outcome="raise", **exc_info(e2))
     except Exception as e:  # noqa
         run.sim.ev("raise", op=op["id"], **exc_info(e))
         if op.get("resume") and "pager" in locals() and hasattr(type(pager), "pages"):
             # caller behaviour: the error of a page fetch is caught and the SAME pager object is iterated again
+            run.second_pass.add(op["id"])        # (a pager that starts over may ask for pages it already had)
             run.sim.ev("resumed", op=op["id"])
             try:
                 for item in pager:
@@ -680,12 +692,24 @@ async def _async_paged(run, client, op):
                 if op.get("stop_after") == n:
                     break
         _read_attrs(run, op, pager)
+        if op.get("reiterate"):
+            run.second_pass.add(op["id"])
+            run.sim.ev("second_pass", op=op["id"])
+            try:
+                async for item in pager:
+                    run.sim.ev("item2", op=op["id"], value=norm_item(item))
+                run.sim.ev("second_pass_end", op=op["id"], outcome="return")
+            except asyncio.CancelledError:
+                raise
+            except Exception as e2:  # noqa
+                run.sim.ev("second_pass_end", op=op["id"], outcome="raise", **exc_info(e2))
     except asyncio.CancelledError:
         run.sim.ev("cancelled", op=op["id"])
         raise
     except Exception as e:  # noqa
         run.sim.ev("raise", op=op["id"], **exc_info(e))
         if op.get("resume") and "pager" in locals() and hasattr(type(pager), "pages"):
+            run.second_pass.add(op["id"])
             run.sim.ev("resumed", op=op["id"])
             try:
                 async for item in pager:
